@@ -37,6 +37,15 @@ Theorem system_frame : forall cfgs d sch m s i,
 Proof. exact system_frame_lemma. Qed.
 Print Assumptions system_frame.
 
+(* consequently no move of ANOTHER task can break a task's TaskInv (the
+   single-task theorems of C02 cover the task's own moves) *)
+Theorem other_tasks_preserve_inv : forall cfgs d sch m c,
+  (forall c', In c' cfgs -> t_id c' = fst m -> (t_src c', t_ig c') <> (t_src c, t_ig c)) ->
+  TaskInv c (s_db (sys_run sch (sys_init cfgs d))) ->
+  TaskInv c (s_db (sys_step (sys_run sch (sys_init cfgs d)) m)).
+Proof. exact other_moves_keep_inv. Qed.
+Print Assumptions other_tasks_preserve_inv.
+
 (* non-vacuity: two tasks on one table, different integrations *)
 Example two_pairs_differ :
   (t_src (Task 1 1 2 3 1 0 1 1 [] true true), t_ig (Task 1 1 2 3 1 0 1 1 [] true true)) <> (1, 4).
